@@ -1,7 +1,7 @@
 #!/bin/sh
 # Runs the relevant quick checks against every stored behaviour-preserving refactor (optionally only modules matching $1, e.g. gauss); prints only non-silent results.
-rel() { case "$1" in graphs1) echo C02 C03 C07 C08 C09 C10 C14 C15 C16 C19;; graphs2) echo C07 C08 C09 C10 C14 C15 C16;; gauss) echo C01 C04 C05 C06 C13 C14;;
- anm) echo C02 C03 C04 C13 C14 C20;; gens) echo C11 C12 C13;; semi) echo C03 C14 C19;; misc) echo C05 C06 C13 C14 C17 C18;; esac; }
+rel() { case "$1" in graphs1) echo C02 C03 C07 C08 C09 C10 C14 C15 C16 C19;; graphs2) echo C07 C08 C09 C10 C13 C14 C15 C16 C18;; gauss) echo C01 C04 C05 C06 C13 C14;;
+ anm) echo C02 C03 C04 C13 C14 C20;; gens) echo C11 C12 C13 C14;; semi) echo C03 C13 C14 C19;; misc) echo C05 C06 C13 C14 C17 C18;; esac; }
 bad=0
 for d in /verif/refactors/${1:-*}-[rst]?; do
   name=$(basename $d); mod=${name%-[rst]?}
